@@ -41,6 +41,8 @@ static bool gen_c05(uint64_t seed, const std::string &tier, uint64_t i, Plan &p)
       if (!bol) enc += "\r\n"; payload = enc; lab = "conforming encoding";
     }
   }
+  // a size limit in force in some plans (a rarely used setting): over the limit means 552 and nothing stored, never a stored prefix
+  if (r.chance(0.15)) { Json ctl = Json::obj(); ctl.set("databytes", (long long)r.pick(std::vector<int64_t>{1, 5, 20, 100, 1000, 1024, 3000})); p.knobs.set("control", ctl); }
   std::string pre = "HELO c\r\nMAIL FROM:<s@x.example>\r\nRCPT TO:<u@l.example>\r\nDATA\r\n";
   std::string post = r.pick(std::vector<std::string>{"QUIT\r\n", "RSET\r\nQUIT\r\n", "NOOP\r\nMAIL FROM:<a@b>\r\nRCPT TO:<c@d>\r\nDATA\r\nsecond\r\n.\r\nQUIT\r\n", "", "\r\n.\r\nQUIT\r\n"});
   // terminate the payload properly in most plans so that following commands test the resynchronisation
@@ -66,7 +68,9 @@ static std::string c08_addr(Rng &r, bool rcpt) {
   if (form == 2) return ": " + a + " extra";
   if (form == 3) return ":<@relay.example,@r2.example:" + a + ">";
   if (form == 4) return ":<" + a + "> SIZE=100";
-  if (form == 5) return ":<" + std::string((size_t)r.range(890, 905), 'a') + "@l.example>";
+  if (form == 5 && r.chance(0.5)) return ":<" + std::string((size_t)r.range(890, 905), 'a') + "@l.example>";
+  // the limit applies to the address AFTER a local IP literal was replaced by localiphost: typed lengths just under the limit
+  if (form == 5) return ":<" + std::string((size_t)r.range(850, 892), 'a') + "@" + r.pick(std::vector<std::string>{"[127.0.0.1]", "[10.0.0.7]", "[0.0.0.0]"}) + ">";
   if (form == 6) return " " + a;                     // no colon at all
   if (form == 7) return ":<" + a;                    // unterminated
   return ":<" + a + ">";
@@ -82,7 +86,7 @@ static bool gen_c08(uint64_t seed, const std::string &tier, uint64_t i, Plan &p)
   if (rc != 0) { Json a = Json::arr(); a.push("l.example"); if (r.chance(0.5)) a.push(".l.example"); if (r.chance(0.3)) a.push("Example"); if (r.chance(0.3)) a.push("sim.example"); if (r.chance(0.4)) a.push(r.chance(0.5) ? "zone-9.example" : "Zone-9.EXAMPLE"); if (r.chance(0.3)) a.push("caf\xe9.example"); ctl.set("rcpthosts", a); }
   if (rc >= 3) { Json a = Json::arr(); a.push("more.example"); if (r.chance(0.5)) a.push(".more.example"); if (r.chance(0.4)) a.push(r.chance(0.5) ? ".zz.example" : ".ZZ.example"); if (r.chance(0.3)) a.push(".\xff\x80.example"); ctl.set("morercpthosts", a); }
   if (r.chance(0.5)) { Json a = Json::arr(); a.push("bad@sender.example"); a.push("@bad.example"); if (r.chance(0.3)) a.push("Zed@zone-9.example"); ctl.set("badmailfrom", a); }
-  if (r.chance(0.3)) ctl.set("localiphost", r.pick(std::vector<std::string>{"l.example", "other.example"}));
+  if (r.chance(0.4)) ctl.set("localiphost", r.pick(std::vector<std::string>{"l.example", "other.example", "a-rather-long-name-for-this-very-host.sub.l.example", "a-rather-long-name-for-this-very-host.sub.l.example"}));
   p.knobs.set("control", ctl);
   Json env = Json::obj(); env.set("TCPREMOTEIP", "192.0.2.9").set("TCPREMOTEHOST", "client.example").set("TCPLOCALHOST", "sim.example");
   int rl = (int)r.below(6); if (rl == 0) env.set("RELAYCLIENT", ""); else if (rl == 1) env.set("RELAYCLIENT", "@relay.suffix");
@@ -106,6 +110,7 @@ static bool gen_c08(uint64_t seed, const std::string &tier, uint64_t i, Plan &p)
   int mode = (int)r.below(3);
   if (mode == 0) p.ops.push(send_op(all)); else if (mode == 1) p.ops.push(send_op(all, (int)r.range(1, 30)));
   else { size_t off = 0; int rep = 1; while (off < all.size()) { size_t e = all.find('\n', off); if (e == std::string::npos) e = all.size() - 1; p.ops.push(send_op(all.substr(off, e - off + 1))); off = e + 1; if (r.chance(0.7)) p.ops.push(wait_op(++rep)); } }
+  add_short_io(r, p, "qmail-smtpd", 0.15, false);
   p.label = "commands=" + std::to_string(n) + " rcpthosts=" + std::to_string(rc) + " relay=" + std::to_string(rl);
   return true;
 }
@@ -171,7 +176,7 @@ static bool gen_c07_nt(Rng &r, Plan &p, uint64_t i, bool qmtp) {
     if (code == 82 || r.chance(0.1)) q.set("text", r.pick(std::vector<std::string>{"Dcustom permanent", "Zcustom temporary", "D", "", "Zx"}));
     p.knobs.set("qq", q); p.ops.push(send_op(all, (int)r.below(40))); p.label = lab + "queue program exits " + std::to_string(code); }
   else { size_t cut = (size_t)r.below(all.size() + 1); int64_t st = r.chance(0.5) ? 3500 : 3700; p.ops.push(send_op(all.substr(0, cut))); p.ops.push(Json::obj().set("op", "sleep").set("s", (long long)st)); p.ops.push(send_op(all.substr(cut))); p.label = lab + "stall of " + std::to_string(st) + " s at byte " + std::to_string(cut); }
-  if (mode == 0 && r.chance(0.3)) { Fault f; f.actor = "qmail-queue"; f.call = r.pick(std::vector<CallId>{C_WRITE, C_FSYNC, C_LINK, C_OPEN, C_READ, C_MALLOC}); f.nth = (int)r.range(1, 6); f.kind = f.call == C_MALLOC ? "null" : "error"; f.err = r.pick(std::vector<int>{EIO, ENOSPC}); p.faults.push_back(f); p.knobs.set("real_qq_fault", true); p.label += " +queue fault"; }
+  if (mode == 0 && r.chance(0.3)) { Fault f; f.actor = "qmail-queue"; f.call = r.pick(std::vector<CallId>{C_WRITE, C_FSYNC, C_LINK, C_OPEN, C_READ, C_MALLOC}); f.nth = (int)r.range(1, 6); f.kind = f.call == C_MALLOC ? "null" : "error"; f.err = r.pick(std::vector<int>{EIO, ENOSPC}); if (r.chance(0.3)) { f.call = C_ANY; f.nth = (int)r.range(1, 30); f.kind = "kill"; } /* the queue program is killed (OOM killer, operator): a death by signal is never success */ p.faults.push_back(f); p.knobs.set("real_qq_fault", true); p.label += " +queue fault"; }
   return true;
 }
 
@@ -214,7 +219,7 @@ static bool gen_c07(uint64_t seed, const std::string &tier, uint64_t i, Plan &p)
     p.ops.push(send_op(all.substr(0, cut))); p.ops.push(Json::obj().set("op", "sleep").set("s", (long long)(r.chance(0.5) ? timeout - 5 : timeout + 5))); p.ops.push(send_op(all.substr(cut))); p.label = "stall at byte " + std::to_string(cut);
   }
   // faults inside the real qmail-queue behind the daemon give the real 51/53/54/6x codes
-  if (mode == 0 && r.chance(0.3)) { Fault f; f.actor = "qmail-queue"; f.call = r.pick(std::vector<CallId>{C_WRITE, C_FSYNC, C_LINK, C_OPEN, C_READ, C_MALLOC}); f.nth = (int)r.range(1, 6); f.kind = f.call == C_MALLOC ? "null" : "error"; f.err = r.pick(std::vector<int>{EIO, ENOSPC}); p.faults.push_back(f); p.knobs.set("real_qq_fault", true); p.label += " +queue fault"; }
+  if (mode == 0 && r.chance(0.3)) { Fault f; f.actor = "qmail-queue"; f.call = r.pick(std::vector<CallId>{C_WRITE, C_FSYNC, C_LINK, C_OPEN, C_READ, C_MALLOC}); f.nth = (int)r.range(1, 6); f.kind = f.call == C_MALLOC ? "null" : "error"; f.err = r.pick(std::vector<int>{EIO, ENOSPC}); if (r.chance(0.3)) { f.call = C_ANY; f.nth = (int)r.range(1, 30); f.kind = "kill"; } /* the queue program is killed (OOM killer, operator): a death by signal is never success */ p.faults.push_back(f); p.knobs.set("real_qq_fault", true); p.label += " +queue fault"; }
   return true;
 }
 
